@@ -1,4 +1,5 @@
 """C08 unbiased compaction (DESIGN.md section 5 C08; A9): coin clauses."""
+import quantile_rules
 import coin_rules as K
 import generic_lints
 import hazard_lints
@@ -11,6 +12,8 @@ def run(facts, tier):
         ("coin dataflow", K.coin_sources, 15, "surviving parity flows from random_bit() only; one draw per halving, independent of outcomes; stride 2 over an even run"),
         ("stride offsets", K.stride_offsets, 1, "a stride-s sub-sampling loop starts at an offset drawn uniformly from [0, s) with the library engine"),
         ("req region", K.req_region, 2, "REQ compaction range touches the end of the live region that compact() moves (low==0 in HRA, high==num_items_ in LRA)"),
+        ("req merge runs", K.req_merge_ranges, 2, "a REQ compactor merge leaves the level sorted in both buffer layouts (std::inplace_merge gets exactly the old run and the appended run): ranks are computed over sorted levels"),
+        ("view invalidation", quantile_rules.cache_invalidation, 10, "every operation that changes the retained items drops the cached sorted view: estimates are computed from the current contents, not from a view cached before a merge"),
         ("unsigned clamp", K.unsigned_field_minus_param, 1, "every caller of a function that subtracts a parameter from an unsigned field passes min(x, field): the REQ compaction schedule is clamped to the number of sections"),
         ("sortedness couplings", lambda fa: cowrite.obligations(fa, ['kll_sketch', 'req_compactor', 'quantiles_sketch']), 8, "an item placed into level 0 / the buffer clears the sortedness flag that lets compaction skip sorting (halving an unsorted run is biased)"),
         ("merge peers", K.merge_peers, 1, "merge combines error parameters with the same field of the other sketch"),
